@@ -1641,7 +1641,7 @@ def option_families(T):
     if not T:
         add('group_arg_value', 'args2:kw', gav_skeletons(GAV_ATOMS, 2, GAV_CTX[3:]), [(gav, {})], [((0, 1), False, None, None)])
         add('group_arg_value', 'args2:tab', gav_skeletons(GAV_ATOMS, 2, GAV_CTX[:2]), [tabbed], [((0, 1), False, None, None)])
-    add('group_arg_value', 'args2:dev2', gav_skeletons(GAV_ATOMS, 2, GAV_CTX[:3] if T else GAV_CTX[:1]), [(gav, {})], [((2,), T, IN, None)])
+    add('group_arg_value', 'args2:dev2', gav_skeletons(GAV_ATOMS, 2, GAV_CTX[:3] if T else GAV_CTX[:1]), [(gav, {})], [((2,), False, IN, None)])
     add('group_arg_value', 'args3', gav_skeletons(GAV_ATOMS, 3, GAV_CTX if T else GAV_CTX[:1]), [(gav, {})], [((0, 1), T, None, None)])
     if T:
         add('group_arg_value', 'args2:more-strings', gav_skeletons(GAV_ATOMS_T, 2, GAV_CTX[:2]),
